@@ -221,11 +221,13 @@ class TheoryOracle(walkers.DagWalker):
         ground terms. Operands of other shapes are left to their own rule.
         """
         def signs(term, sign):
-            if term.is_symbol():
-                return [sign]
             if not term.get_free_variables():
                 return []
-            return None
+            if term.is_minus():
+                return None
+            # Any other term (a symbol, an ITE, an application...)
+            # stands for one variable
+            return [sign]
         res: List[int] = []
         operands = [(a, 1) for a in formula.args()]
         if formula.is_minus():
@@ -242,9 +244,7 @@ class TheoryOracle(walkers.DagWalker):
             s = signs(term, sign)
             if s is None:
                 # A subtraction inside a subtraction is not a difference
-                if term.is_minus():
-                    return False
-                continue
+                return False
             res += s
         return len(res) < 2 or (len(res) == 2 and sum(res) == 0)
 
